@@ -468,3 +468,36 @@ pub fn fen_side_key_contract() {
     assert!(got == h ^ (if white { 0 } else { spec::SIDE_KEY }), "C04: the importer does not hash the side to move with the published side key");
     vcover!(!white, "black to move reachable");
 }
+
+/// the board loop of Game::fen as a whole (slice verif_fen_board_loop, header `for row in (0..8).rev()`
+/// included) on boards holding ONE piece of any kind on any square: the placement field is the eight
+/// rank texts from rank 8 down to rank 1 (so a mirrored or shifted rank order is caught).  BOUNDED in
+/// the board (one piece); the per-rank contract fen_rank_* covers every rank content.
+#[cfg_attr(kani, kani::proof)] #[cfg_attr(kani, kani::unwind(10))]
+#[cfg_attr(kani, kani::stub(std::string::String::push, sink::push))] #[cfg_attr(kani, kani::stub(std::string::String::push_str, sink::push_str))]
+#[cfg_attr(verif_replay, test)]
+pub fn fen_board_loop_one_piece() {
+    let mut g = mk::game_side_only(true);
+    let s = mk::sym_sq();
+    g.board[s] = Some(mk::sym_piece());
+    let b = adapt::board_of(&g);
+    let mut out = String::new();
+    #[cfg(kani)]
+    unsafe { sink::LEN = 0; }
+    g.verif_fen_board_loop(&mut out);
+    #[cfg(kani)]
+    let got: &[u8] = unsafe { &sink::BUF[..sink::LEN] };
+    #[cfg(not(kani))]
+    let got: &[u8] = out.as_bytes();
+    let mut pos = 0usize;
+    let mut ok = true;
+    let mut r = 8;
+    while r > 0 {
+        r -= 1;
+        let t = spec::fen_rank_text(&b, r);
+        let mut i = 0;
+        while i < 9 { if i < t.len { if pos >= got.len() || got[pos] != t.b[i] { ok = false; } pos += 1; } i += 1; }
+    }
+    assert!(ok && pos == got.len(), "C11: the placement field is not the rank texts from rank 8 down to rank 1");
+    vcover!(s == 0, "piece on a1 reachable");
+}
